@@ -27,4 +27,4 @@ REQUIRED_CLASSES = {t: ["roundtrip:add_node:undo", "roundtrip:add_node:inverse",
                         "cfg:per_axis_pos", "cfg:3D"]
                     for t in ("quick", "thorough")}
 run_shard, replay, minimise = make(C01Oracle, quick=(3200, 30), thorough=(6400, 50), profile="general",
-                                   cfg_kwargs={"allow_stray": True})
+                                   cfg_kwargs={"allow_stray": True, "allow_default_feature": True})
